@@ -189,8 +189,29 @@ def probes(d):
                 p.set(ctypes, "CDLL", lambda name, ns=ns: ns)
         if "policy" in d:
             m = make_policy_module(d["policy"])
-            # a None entry makes `import _manylinux` raise ImportError even if one is installed
-            p.item(sys.modules, "_manylinux", m)
+            if m is not None and d.get("policy_via") == "path":
+                # installed but not imported yet: nothing in sys.modules, `import _manylinux` finds it (PEP 513/600: the
+                # library itself discovers the module); restored afterwards (finder removed, sys.modules entry dropped)
+                import importlib.abc
+                import importlib.machinery
+
+                class _Loader(importlib.abc.Loader):
+                    def create_module(self, spec):
+                        return m
+
+                    def exec_module(self, module):
+                        pass
+
+                class _Finder(importlib.abc.MetaPathFinder):
+                    def find_spec(self, name, path=None, target=None):
+                        if name == "_manylinux":
+                            return importlib.machinery.ModuleSpec(name, _Loader())
+                        return None
+                p.item(sys.modules, "_manylinux", _ABSENT)
+                p.set(sys, "meta_path", [_Finder()] + list(sys.meta_path))
+            else:
+                # a None entry makes `import _manylinux` raise ImportError even if one is installed
+                p.item(sys.modules, "_manylinux", m)
         if "exe_hex" in d:
             tmpdir = tempfile.mkdtemp(prefix="verif-tags-")
             path = os.path.join(tmpdir, "python")
